@@ -1,6 +1,6 @@
 #!/bin/sh
 # Run the thorough tier of the given (or all registered) properties one after another; log a one-line summary each.
-cd "$(dirname "$0")/.."
+cd "$(dirname "$0")/.." && mkdir -p out
 props="$@"
 [ -z "$props" ] && props=$(/venv/bin/python -c "import json; print(' '.join(c['property_id'] for c in json.load(open('MANIFEST.json'))['checks']))")
 for p in $props; do
